@@ -3,7 +3,7 @@
 import numpy as np
 import torch
 
-from qv import gen, num, oracles
+from qv import fp, gen, num, oracles
 
 F64 = torch.float64
 
@@ -103,11 +103,16 @@ def judge(ctx, x, qtn, storage, scale, axis, entry, recipe, layout, qtypes, fn_a
                 layout=layout)
     if not ctx.case(desc):
         return
+    xb, sb = fp.plain_bytes(x), fp.plain_bytes(scale)
     try:
         q = call(x)
     except Exception as e:
         ctx.violation(dict(kind="raises", exc=type(e).__name__, entry=entry, qtype=qtn, dtype=str(x.dtype),
                            axis=axis), dict(msg=str(e)[:300], desc=desc))
+        return
+    if fp.plain_bytes(x) != xb or fp.plain_bytes(scale) != sb:
+        # the oracle below would silently judge against the modified source
+        ctx.violation(dict(kind="source_or_scale_modified", entry=entry, qtype=qtn, dtype=str(x.dtype)), dict(desc=desc))
         return
     stats, idem = {}, {}
     fails = oracles.check_symmetric(x, storage, scale, q, requant=call, stats=stats, idem=idem)
